@@ -148,7 +148,8 @@ let () =
       Printf.printf "S %s %s\n" id (String.concat " " stoks)
     | id :: impl :: kind :: ops ->
       let kn = n_of_int (kind_index kind) in
-      let o = default_of kn in
+      (* mpt++ objects start from their constructors (proved to show the same defaults and to meet the invariant) *)
+      let o = if impl = "x" then cxx_new kn else default_of kn in
       let ops = parse_ops ops in
       Printf.printf "M %s %s Z\n" id (String.concat " " (List.map show_out (mrun (o, o) ops)));
       let sk = kind_no kn in
